@@ -238,6 +238,48 @@ fn key_neighbours(prop: &str, proto: Proto, acc: &mut Acc) {
             }
         }
     }
+    // an expectation whose value has no JSON form (an integer beyond 64 bits) can never be met: never Ok
+    if let Out::Ok(t7) = adapter::core_issue(proto, &key.sk, &seed, "{\"acct\":7,\"data\":\"x\"}", None, None) {
+        for (layer, default) in [(Layer::Generic, false), (Layer::Prelude, true)] {
+            let ops = vec![POp::Check(ClaimSpec { key: "acct".into(), value: Value::Null, form: Form::Native(11) }), POp::Parse(0, 0)];
+            let ev2 = adapter::parse_history(proto, layer, default, &[key.pk.clone()], &[t7.clone()], &ops);
+            acc.executions += 1;
+            if let Some(PEvent::Parsed(out, _)) = ev2.last() {
+                if out.is_ok() {
+                    acc.violate(format!("{}|{}|{:?}|unserialisable-expectation-accepted", prop, proto.name(), layer), "expectation acct = u128::MAX (no JSON form) accepted for a token carrying acct = 7".into(), json!({"product_case": {"proto": proto, "flavor": Flavor::Generic, "payload": {"acct": 7}, "expected": [["acct", "u128::MAX"]]}}));
+                }
+            }
+        }
+    }
+    // keys that look like paths / JSON pointers are plain member names: a token that lacks the member but has
+    // a nested structure where the "path" resolves does not carry the claim
+    let nested = json!({"example.com": {"role": "auditor"}, "a": {"b": "deep"}, "x~y": {"z": 1}, "list": ["zero", "one"], "data": "x"});
+    if let Out::Ok(tn) = adapter::core_issue(proto, &key.sk, &seed, &nested.to_string(), None, None) {
+        adapter::reset_verdicts();
+        adapter::set_verdict(0, adapter::Verdict::Accept);
+        for k in ["example.com/role", "/example.com/role", "a/b", "a.b", "x~1y/z", "x~0y", "list/1", "list.1", "list[1]", "$.a.b"] {
+            // expectation on the path-like key: the member is missing
+            let ops = vec![POp::Check(ClaimSpec { key: k.into(), value: json!("auditor"), form: Form::TupleString }), POp::Parse(0, 0)];
+            let ev2 = adapter::parse_history(proto, Layer::Generic, false, &[key.pk.clone()], &[tn.clone()], &ops);
+            acc.executions += 1;
+            if let Some(PEvent::Parsed(out, _)) = ev2.last() {
+                if out.is_ok() {
+                    acc.violate(format!("{}|{}|Generic|path-like-key-resolved", prop, proto.name()), format!("expectation on the key {:?} accepted for the payload {} (no such member)", k, nested), json!({"product_case": {"proto": proto, "flavor": Flavor::Generic, "payload": nested, "expected": [[k, "auditor"]]}}));
+                }
+            }
+            // validator on the path-like key: must be handed null
+            let ops = vec![POp::Validate(k.into(), 0), POp::Parse(0, 0)];
+            let ev3 = adapter::parse_history(proto, Layer::Generic, false, &[key.pk.clone()], &[tn.clone()], &ops);
+            if let Some(PEvent::Parsed(_, calls)) = ev3.last() {
+                for c in calls {
+                    if c.key == k && !c.value.is_null() {
+                        acc.violate(format!("{}|{}|Generic|path-like-key-validator-value", prop, proto.name()), format!("the validator for the key {:?} was handed {} although the payload {} has no such member", k, c.value, nested), json!({"product_case": {"proto": proto, "flavor": Flavor::Generic, "payload": nested, "expected": [[k, "<validator>"]]}}));
+                    }
+                }
+            }
+        }
+        adapter::reset_verdicts();
+    }
     for (ek, ev, should) in [("a", "v", true), ("A", "v", false), ("a ", "v", false), ("ab", "v", false), ("ab", "w", true), ("isss", "Alice", false), ("isss", "Mallory", true), ("is", "Alice", false)] {
         let ops = vec![POp::Check(ClaimSpec { key: ek.into(), value: json!(ev), form: Form::TupleString }), POp::Parse(0, 0)];
         let ev2 = adapter::parse_history(proto, Layer::Generic, false, &[key.pk.clone()], &[t.clone()], &ops);
@@ -473,6 +515,15 @@ pub fn run(prop: &'static str, tier: &str) -> i32 {
     }
 
     // ---- C15 only: the (S, E) product, all parser flavours on v4.local, Generic on the others (quick: v4.local only)
+    if prop == "C16" {
+        let accs = par_units(&Proto::ALL.to_vec(), |p| {
+            let mut acc = Acc::default();
+            adapter::freeze_default_clock();
+            key_neighbours(prop, *p, &mut acc);
+            acc
+        });
+        all.merge(Acc::merge_all(accs));
+    }
     if prop == "C15" {
         let mut units: Vec<(Proto, Flavor, usize)> = Vec::new();
         for f in [Flavor::Generic, Flavor::PreludeNew, Flavor::PreludeDefault] {
